@@ -143,6 +143,40 @@ def run(tier):
     ck.instance("R3.reguard", "from_saved_state calls Guard::guard", F.short_span(fs.span), ok=regs)
     if not regs:
         ck.finding("R3.reguard", "R3.reguard/from_saved_state", F.short_span(fs.span), "from_saved_state no longer guards the restored registers: they are unrooted after a resume")
+    # ---- R5 whoever looks at a promise's status subscribes to the pending case
+    # A function that branches on PromiseStatus and answers from what it sees must, for Pending, register a
+    # handler on the promise (mutable access to PromiseState.handlers, directly or through promise_then):
+    # otherwise its answer depends on whether the promise happened to be settled when it was called, i.e. on
+    # the host's schedule.
+    ck.rule("R5.status-observers-subscribe", "every function that branches on PromiseStatus registers a handler for the pending case (or is a scheduler function of the reasoned table)", floor=8)
+    OBSERVER_OK = {
+        "interpreter::bytecode_vm::BytecodeVM::execute_op": "Op::Await on a pending promise suspends and registers the waiter in the wait graph",
+        "interpreter::Interpreter::step": "resumes a context from the status of the promise it waited for",
+        "interpreter::Interpreter::check_resolved_promises": "the wake-up scan itself",
+        "interpreter::builtins::promise::resolve_promise_sync": "Pending is answered with an internal error, not with a value (async generator delegation settles first)",
+    }
+    PS = "value::PromiseStatus"
+    for f in fx.fns.values():
+        if f.closure or f.derived or (f.impl_trait or "").endswith("Debug"):
+            continue
+        grp = fx.body_group(f)
+        if not any(x[1] == PS and "Pending" in x[3] and len(x[3]) + (1 if x[4] is not None else 0) >= 2 for g in grp for x in M.enum_switches(fx, g)):
+            continue
+        subscribes = False
+        for g in grp:
+            for bi, kind, place, sp in M.all_places(g):
+                for (adt, v, name) in F.place_fields(place):
+                    if adt == "value::PromiseState" and name == "handlers" and kind in ("w", "b"):
+                        subscribes = True
+            for bi, t in g.calls():
+                if t[1].get("d", "").endswith(("promise::promise_then", "WaitGraph::add_waiter", "WaitGraph::wait_for")):
+                    subscribes = True
+        ok = subscribes or f.parent in OBSERVER_OK
+        ck.instance("R5.status-observers-subscribe", f.parent + (" (%s)" % OBSERVER_OK[f.parent] if f.parent in OBSERVER_OK and not subscribes else ""), F.short_span(f.span), ok=ok)
+        if not ok:
+            ck.finding("R5.status-observers-subscribe", "R5.status-observers-subscribe/" + f.parent, F.short_span(f.span),
+                       "`%s` branches on a promise's status and answers without registering a handler for the pending case: what it returns depends on "
+                       "whether the promise was already settled when it was called" % f.parent)
     # ---- R4 wake-up: a suspended context whose awaited promise settled must become ready whatever route settled it
     import c08
     c08.wake_up_rule(fx, ck, "R4.wake-up")
